@@ -101,9 +101,14 @@ class RG:
             return "(get [%s %s %s] %s)" % (e(), e(), e(), r.choice(["0", "1", "-1", "5", self.expr(d + 1)]))
         if k < 0.68:
             return 'f"x{%s}y{%s !r:>6}"' % (e(), e()) if r.random() < 0.5 else 'f"{%s :{%s}}"' % (e(), r.choice(["5", "(zq_log %d 4)" % self.key()]))
-        if k < 0.73:
+        if k < 0.70:
             p = self.name()
             return "((fn [%s] %s) %s)" % (p, self.with_defined(p, lambda: self.stmt_expr(d + 1)), e())
+        if k < 0.73:
+            # an expression-only fn whose only annotation sits on a variadic (or one ordinary) parameter
+            p = self.name()
+            return r.choice(["((fn [#^ int #* %s] (len %s)) 1 2)", "((fn [#** #^ int %s] (sorted %s)) :k 1)", "((fn [#^ int %s] (+ %s 1)) 2)",
+                             "((fn [zq_p #^ int #* %s] (len %s)) 1 2)", "((fn [* #^ int %s] %s) :%s 3)"]).replace("%s", p)
         if k < 0.77:
             v = self.name()
             self.define(v)
@@ -206,8 +211,22 @@ class RG:
             return "(defn %s [] (try (/ 1 0) (except [ZeroDivisionError] (zq_log %d 1) raise (zq_log %d 2))))\n%s" % (f, a, b, call)
         return "(defn %s [] (zq_log %d 1) %s (zq_log %d 2))\n%s" % (f, a, kw, b, call)
 
+    def underscore_identifier(self, d):
+        """`_` used as an ordinary identifier, with a variable Y beside it (the printed source must keep them apart)"""
+        r = self.r
+        a, b, c = self.key(), self.key(), self.key()
+        return r.choice([
+            '(setv Y "kept")\n(for [_ [1 2]] (zq_log %d _))\n(zq_log %d Y)\n(zq_log %d _)' % (a, b, c),
+            '(setv _ 5 Y 6)\n(zq_log %d [_ Y])' % a,
+            '(zq_log %d (zq_kw :_ 1 :Y 2))' % a,
+            '(defclass zq-U%d [] (setv _ 1 Y 2))\n(zq_log %d [(getattr zq-U%d "_") (getattr zq-U%d "Y")])' % (a, b, a, a),
+            '(defn zq-u%d [_ Y] [_ Y])\n(zq_log %d (zq-u%d 1 2))' % (a, b, a),
+        ])
+
     def stmt1(self, d=0):
         r = self.r
+        if d == 0 and r.random() < 0.04:
+            return self.underscore_identifier(d)
         if self.plain and r.random() < 0.12:
             return self.bare_keyword_statement(d)
         k = r.random()
